@@ -40,7 +40,8 @@ LEVEL_TEXT = ('For each of ~65 generator/coroutine/async-generator bodies every 
               'compared after every step; histories are pruned at the first divergence.')
 LEVEL_NOTE = ('Bounded history length and a fixed body set. Excluded by design: gi_frame/gi_code/tracebacks, exception message '
               'texts of runtime-generated errors (types only; args compared for user-raised exceptions), "never awaited" '
-              'RuntimeWarnings, __context__ chains. Alphabet restrictions (CPython-version-specific corners, not Cython defects): '
+              'RuntimeWarnings, the __context__ that CPython >= 3.9 gives to exceptions injected by throw()/close() (bpo-29587; the '
+              'chain of exceptions raised by the body is compared). Alphabet restrictions (CPython-version-specific corners, not Cython defects): '
               'throw(StopIteration) while suspended in `yield from <iterator without throw()>` (CPython >= 3.12 turns it into '
               'the iterator result, PEP 380 says raise); close() of asend()/athrow() awaitables (3.12 and 3.13 differ); throw() '
               'into a never-started awaitable while another awaitable of the same async generator is pending; re-driving a '
@@ -85,7 +86,18 @@ def _exc(e):
         return ('astop', repr(e.args))
     args = repr(e.args) if _user_args(e.args) else '<msg>'
     cause = type(e.__cause__).__name__ if e.__cause__ is not None else None
-    return ('exc', type(e).__name__, args, cause)
+    # __context__ type chain of exceptions raised BY THE BODY.  The chain is cut at an exception that was injected by
+    # throw()/close() (recognisable: ValueError/GeneratorExit/StopIteration with args (), ('v',) or (3,)): CPython >= 3.9
+    # chains an injected exception to the exception the generator is handling (bpo-29587), Cython does not.
+    chain = []
+    c = e
+    while c is not None and len(chain) < 4:
+        if isinstance(c, (ValueError, GeneratorExit, StopIteration)) and c.args in ((), ('v',), (3,)):
+            break
+        c = c.__context__
+        if c is not None:
+            chain.append(type(c).__name__)
+    return ('exc', type(e).__name__, args, cause, tuple(chain))
 
 
 class Machine:
@@ -292,7 +304,9 @@ def div_class(ref, got):
                 return 'exc:%s->%s' % (ro[1], go[1])
             if ro[2] != go[2]:
                 return 'exc-args:%s' % ro[1]
-            return 'exc-cause:%s:%s->%s' % (ro[1], ro[3], go[3])
+            if ro[3] != go[3]:
+                return 'exc-cause:%s:%s->%s' % (ro[1], ro[3], go[3])
+            return 'exc-context:%s:%s->%s' % (ro[1], '>'.join(ro[4]) or 'none', '>'.join(go[4]) or 'none')
         if ro[0] != go[0]:
             r = ro[0] if ro[0] != 'exc' else 'exc:' + ro[1]
             g = go[0] if go[0] != 'exc' else 'exc:' + go[1]
@@ -703,7 +717,7 @@ def run(ctx):
         'exhaustive': True,
     }
     assumptions = ['protocol behaviour for histories longer than the bound and for bodies outside the fixed set is not covered',
-                   'exception message texts of interpreter-generated errors and __context__ chains are not compared',
+                   'exception message texts of interpreter-generated errors are not compared; __context__ chains are compared as type names',
                    'by-design alphabet restrictions: see LEVEL_NOTE']
     if ctx.tier == 'thorough':
         # deeper bound with state dedup; the abstraction is audited by comparing a dedup run and the no-dedup run on bound 5
